@@ -14,7 +14,7 @@ RULE = ("random stores (mixed object types, owners, policies, states, dates with
         "slice; distinct = distinct (request, identity, outcome)")
 PROFILE = {"ops": {"create": 8, "register": 10, "createKeyPair": 2, "locate": 40, "activate": 3, "revoke": 2,
                    "destroy": 1, "modifyAttribute": 2, "deleteAttribute": 1, "deriveKey": 1},
-           "groups": 0.1, "restart": 0.02, "locate_listed_only": True, "single": True, "locate_extras": 0.15}
+           "groups": 0.1, "restart": 0.02, "locate_listed_only": True, "single": True, "locate_extras": 0.15, "twins": 0.1}
 MONITORS = [M.mon_c14]
 
 
